@@ -35,9 +35,11 @@ type cfgData struct {
 	// "cancel" the caller cancels it at round 1, "deadline" it carries a
 	// deadline (a virtual timer the explorer lets expire)
 	ctxEnd string
-	cache  bool   // b: CacheClient instead of BaseClient
-	resps  string // c: response sequence
-	qtype  client.Type
+	// longRun: keep letting timers expire for 60 rounds instead of 6
+	longRun bool
+	cache   bool   // b: CacheClient instead of BaseClient
+	resps   string // c: response sequence
+	qtype   client.Type
 }
 
 type harness struct{}
@@ -79,6 +81,14 @@ func configsBase(tier string) []xplore.Config {
 	// dialerr2 / S2: the dial / the Impl's Subscribe fails with an aggregate
 	// error (one that lists several causes, as an Impl trying every address
 	// of the destination would return)
+	// a long outage: 40 consecutive failed attempts (well over a quarter of an
+	// hour of virtual time between the backoff timers): the client, never
+	// closed, must still be retrying
+	var outage []string
+	for i := 0; i < 40; i++ {
+		outage = append(outage, "err")
+	}
+	out = append(out, xplore.Config{Name: "a: reconnect over scripted client: 40 failed attempts in a row (long outage), Close afterwards", Bound: 0, Data: cfgData{part: "a", attempts: outage, closeAt: 99, longRun: true}})
 	// the caller's context ends by itself (cancellation or deadline), Close only afterwards
 	for _, sc := range seqsOf([]string{"err", "nil", "n2err", "park", "parknil"}, maxLen) {
 		for _, ce := range []string{"cancel", "deadline"} {
@@ -115,6 +125,11 @@ func configsBase(tier string) []xplore.Config {
 	}
 	return out
 }
+
+// vclock is the backoff policy's clock: virtual time.
+type vclock struct{}
+
+func (vclock) Now() time.Time { return vrt.Now() }
 
 type tracer struct {
 	ev []string
@@ -386,6 +401,7 @@ func (harness) Run(cfg xplore.Config, ch vrt.Chooser, trace bool) (xplore.Outcom
 			}
 		}
 		rc := client.Reconnect(inner, func() { tr.add("DISCONNECT") }, func() { tr.add("RESET") })
+		client.VerifSetBackoffClock(rc, vclock{})
 		q := client.Query{Addrs: []string{"addr"}, Target: "t", Type: client.Stream, Queries: []client.Path{{"*"}}, NotificationHandler: handler}
 		subReturned, closeReturned, closeInvoked := false, false, false
 		var subErr error
@@ -413,7 +429,11 @@ func (harness) Run(cfg xplore.Config, ch vrt.Chooser, trace bool) (xplore.Outcom
 			tr.add("SUBSCRIBE-RETURNED")
 		})
 		firesAfterClose := 0
-		for round := 0; round < 6; round++ {
+		rounds := 6
+		if d.longRun {
+			rounds = 60
+		}
+		for round := 0; round < rounds; round++ {
 			if d.closeAt == round {
 				vrt.GoNamed("closer", doClose)
 			}
